@@ -76,6 +76,18 @@ def run(ctx):
             fr = MassFunction(**dict(copy.deepcopy(cfg), Mmax=15.0))
             if not (np.array_equal(fr._dlnsdlnm, sl2) and np.array_equal(fr.n_eff, ne)):
                 viol("slope/modified-in-place", "the cached slope differs from a fresh object's after dndm was read (cached array modified in place)", {"config": str(cfg)})
+        # ... and any later change of the mass range on the same object (the slope must follow the sigma the object returns *now*)
+        for filt in ("TopHat", "Gaussian"):
+            mf3 = MassFunction(transfer_model="EH", lnk_min=-14.0, lnk_max=13.0, dlnk=0.02, Mmin=12.0, Mmax=15.0, dlog10m=0.01, filter_model=filt, hmf_model="SMT")
+            mf3.dndm
+            mf3.update(Mmin=6.0)
+            lns, lnm = np.log(mf3.sigma), np.log(mf3.m)
+            num, ana = np.gradient(lns, lnm), mf3._dlnsdlnm
+            ncase += 1
+            if not np.allclose(num[20:-20], ana[20:-20], rtol=0, atol=3e-5):
+                i = int(np.argmax(np.abs(num[20:-20] - ana[20:-20]))) + 20
+                viol(f"{filt}/slope-vs-own-sigma/after-update", f"{filt}: after update(Mmin=6) on an object built with Mmin=12, slope {ana[i]:.6f} vs numerical derivative of the object's own ln sigma {num[i]:.6f} at m={mf3.m[i]:.3g}",
+                     {"filter": filt, "sequence": "MassFunction(Mmin=12); dndm; update(Mmin=6); _dlnsdlnm vs gradient(ln sigma)"})
     out["coverage"] = {
         "evaluations": ncase, "distinct_nontrivial": ncase,
         "rule": "window derivatives on 1500 arguments per differentiable window plus 40 small arguments; slopes for random (transfer model, z, cosmology) x all four filters on fine grids (dlnk=0.02, dlog10m=0.01), interior masses; n_eff identity on fresh objects and after dndm / direct assignment sequences",
